@@ -60,7 +60,7 @@ impl FInput {
 pub fn float_inputs(seed: u64, count: usize, nmax: usize, dims: &[usize]) -> Vec<FInput> {
     let mut rng = StdRng::seed_from_u64(seed.wrapping_mul(0x9E3779B97F4A7C15) ^ 0xF00D);
     let mut out = vec![];
-    let kinds = ["uniform", "cluster", "nearlattice", "lattice", "tiny", "aniso", "offset", "shell", "aniso", "ring", "onwall"];
+    let kinds = ["uniform", "cluster", "nearlattice", "lattice", "tiny", "aniso", "offset", "shell", "aniso", "ring", "onwall", "micro", "mega"];
     let mut aniso_round = 0usize;
     let mut k = 0;
     while out.len() < count {
@@ -84,6 +84,17 @@ pub fn float_inputs(seed: u64, count: usize, nmax: usize, dims: &[usize]) -> Vec
             "offset" => {
                 anchor = DVec3::new(rng.gen_range(-1e4..1e4), rng.gen_range(-1e4..1e4), rng.gen_range(-1e4..1e4));
                 width = DVec3::splat(rng.gen_range(1.0..100.0));
+            }
+            // absolute scale far from 1 (the library is scale free: absolute thresholds must not matter)
+            "micro" => {
+                let sc = 2f64.powi(-rng.gen_range(30..=44));
+                anchor *= sc;
+                width *= sc;
+            }
+            "mega" => {
+                let sc = 2f64.powi(rng.gen_range(20..=26));
+                anchor *= sc;
+                width *= sc;
             }
             _ => {}
         }
@@ -464,7 +475,17 @@ pub fn record(inp: &FInput, mask: &Option<Vec<bool>>, full_line: bool) -> (Optio
                         if (g.integral().area - a).abs() > tol_a.max(thr) {
                             fails.push(TessFail { prop: "C03", what: "face area differs between its two sides".into(),
                                 detail: json!({"i": i, "j": j, "shift": sc, "area_i": a, "area_j": g.integral().area}) });
-                        } else if a > 1e3 * thr && (f.integral().centroid() - shiftv - g.integral().centroid()).length() > 100.0 * tl * (1.0 + scale_area / a).min(1e4) {
+                        } else if a > 1e3 * thr && {
+                            // unused axes carry the unit slab (coordinates of order 1 whatever the scale of the active axes)
+                            let dc = f.integral().centroid() - shiftv - g.integral().centroid();
+                            let mut act = dc;
+                            let mut slab = 0.0f64;
+                            for k in inp.dim..3 {
+                                slab = slab.max(act[k].abs());
+                                act[k] = 0.0;
+                            }
+                            act.length() > 100.0 * tl * (1.0 + scale_area / a).min(1e4) || slab > 1e-9
+                        } {
                             fails.push(TessFail { prop: "C03", what: "face centroid differs between its two sides".into(),
                                 detail: json!({"i": i, "j": j, "shift": sc}) });
                         }
@@ -586,8 +607,92 @@ pub fn record(inp: &FInput, mask: &Option<Vec<bool>>, full_line: bool) -> (Optio
     if flux.abs() > 1e-9 * flux_abs.max(scale_area) + 50.0 * tl * l.powi(inp.dim as i32 - 2).max(1e-300) * (n as f64) {
         fails.push(TessFail { prop: "C03", what: "antisymmetric flux summed over all cells does not cancel".into(), detail: json!({"flux": flux, "sum_abs": flux_abs}) });
     }
+    // ---- C16, second clause: generators added anywhere farther from a generator than its reported safety radius
+    // leave its cell unchanged.  For up to three cells of the full run: add 1..3 generators outside the safety ball
+    // (the first one just outside it - the adversarial place), rebuild that cell alone and record both cells for TLC.
+    let mut far: Vec<Value> = vec![];
+    if full_line && mask.is_none() {
+        let mut rng = StdRng::seed_from_u64(0xFA2 ^ (inp.id as u64) ^ ((n as u64) << 20));
+        let base = voronoi_record(&direct, width, scale_area);
+        let mut tried = 0;
+        for _ in 0..12 {
+            if far.len() >= 3 || tried >= 8 {
+                break;
+            }
+            tried += 1;
+            let i = rng.gen_range(0..n);
+            let gi = proj(inp.gens[i]);
+            let sr = direct.cells()[i].safety_radius();
+            // distance in the active subspace to the nearest periodic image
+            let dist = |q: DVec3| -> f64 {
+                let mut d2 = 0.0;
+                for k in 0..inp.dim {
+                    let mut d = (q[k] - gi[k]).abs();
+                    if inp.per {
+                        d = d.min((d - inp.width[k]).abs());
+                    }
+                    d2 += d * d;
+                }
+                d2.sqrt()
+            };
+            let mut extra: Vec<DVec3> = vec![];
+            let want = rng.gen_range(1..=3);
+            for t in 0..400 {
+                if extra.len() >= want {
+                    break;
+                }
+                let u = DVec3::new(rng.gen_range(0.0..1.0), rng.gen_range(0.0..1.0), rng.gen_range(0.0..1.0));
+                let mut q = inp.anchor + u * inp.width;
+                if extra.is_empty() && t < 200 {
+                    // pull the first one towards the sphere of radius sr * (1 + 1e-6 .. 1e-2) around the generator
+                    let dir = (proj(q) - gi).normalize_or_zero();
+                    let fac = 1.0 + 10f64.powf(rng.gen_range(-6.0..-2.0));
+                    let cand = gi + dir * sr * fac;
+                    let inside = (0..inp.dim).all(|k| cand[k] >= inp.anchor[k] && cand[k] <= inp.anchor[k] + inp.width[k]);
+                    if !inside {
+                        continue;
+                    }
+                    for k in 0..inp.dim {
+                        q[k] = cand[k];
+                    }
+                }
+                if dist(q) > sr * (1.0 + 1e-9) && inp.gens.iter().chain(extra.iter()).all(|g| (0..inp.dim).any(|k| g[k] != q[k])) {
+                    extra.push(q);
+                }
+            }
+            if extra.is_empty() {
+                continue; // the safety ball covers the whole box
+            }
+            let mut gens2 = inp.gens.clone();
+            gens2.extend(extra.iter().cloned());
+            let mut m2 = vec![false; gens2.len()];
+            m2[i] = true;
+            let re = guarded(|| Voronoi::build_partial(&gens2, &m2, inp.anchor, inp.width, dim, inp.per));
+            match re {
+                Err(msg) => fails.push(TessFail { prop: "C16", what: "panic when generators are added outside the safety ball".into(), detail: json!({"cell": i, "message": msg}) }),
+                Ok(v2) => {
+                    let r2 = voronoi_record(&v2, width, scale_area);
+                    let c0 = &direct.cells()[i];
+                    let c2 = &v2.cells()[i];
+                    let dv = (c2.volume() - c0.volume()).abs();
+                    let dc = (c2.centroid() - c0.centroid()).length();
+                    if dv > 50.0 * tl * l.powi(inp.dim as i32 - 1) || dc > 200.0 * tl {
+                        fails.push(TessFail { prop: "C16", what: "cell changed although every added generator lies outside its safety ball".into(),
+                            detail: json!({"cell": i, "volume_before": c0.volume(), "volume_after": c2.volume(), "centroid_shift": dc,
+                                           "safety_radius": sr, "added": extra.iter().map(|q| q.to_array()).collect::<Vec<_>>(),
+                                           "distances": extra.iter().map(|q| dist(*q)).collect::<Vec<_>>()}) });
+                    }
+                    far.push(json!({"i": i + 1, "srq": qi(sr / l), "dq": extra.iter().map(|q| qi(dist(*q) / l)).collect::<Vec<i64>>(),
+                                    "volq0": qi(c0.volume() / box_measure), "volq1": qi(c2.volume() / box_measure),
+                                    "srq1": qi(c2.safety_radius() / l),
+                                    "fset0": base["fset"][i], "fset1": r2["fset"][i], "nadd": extra.len()}));
+                }
+            }
+        }
+    }
     let wq: Vec<i64> = (0..3).map(|k| qi(width[k] / l)).collect();
     let line = json!({
+        "far": far,
         "e": "tess", "id": inp.id, "full": full_line, "n": n, "dim": inp.dim, "per": inp.per,
         "hasmask": mask.is_some(), "mask": active,
         "cps": cps, "volq": volq, "wq": wq,
